@@ -269,6 +269,29 @@ pub fn check_text_history(a_old: &str, a_new: &str, b_old: &str, b_new: &str) ->
         text_api_observation(&bo, &bn)
     })
     .map_err(|p| format!("panic: {}", p))?;
+    // one TextDiffConfig object used for A and then for B must behave like a fresh one for B
+    for &alg in ALGS.iter() {
+        let fresh = subject(|| {
+            let mut c = TextDiff::configure();
+            c.algorithm(alg).timeout(std::time::Duration::from_secs(3600));
+            (c.diff_lines(b_old, b_new).ops().to_vec(), c.diff_words(b_old, b_new).ops().to_vec())
+        })
+        .map_err(|p| format!("panic: {}", p))?;
+        let reused = subject(|| {
+            let mut c = TextDiff::configure();
+            c.algorithm(alg).timeout(std::time::Duration::from_secs(3600));
+            let _ = c.diff_lines(a_old, a_new).ops().len();
+            let _ = c.diff_chars(a_new, a_old).ops().len();
+            (c.diff_lines(b_old, b_new).ops().to_vec(), c.diff_words(b_old, b_new).ops().to_vec())
+        })
+        .map_err(|p| format!("panic: {}", p))?;
+        if fresh != reused {
+            return Err(format!(
+                "a TextDiffConfig ({}) already used for {:?}/{:?} gives {:?} for {:?}/{:?}; a fresh one gives {:?}",
+                alg_name(alg), a_old, a_new, reused, b_old, b_new, fresh
+            ));
+        }
+    }
     if after != alone {
         return Err(format!(
             "text API on {:?}/{:?} gives {:?} on its own, but {:?} after the same calls on {:?}/{:?} held in the same buffers",
